@@ -24,7 +24,19 @@ fn rnacos_bin() -> String {
     std::env::var("VERIF_RNACOS_BIN").unwrap_or("/repo/target/debug/rnacos".to_string())
 }
 
+/// the administrator's access token of a cluster that runs with OpenAPI auth on (`up .. auth=<ttl>`): carried by every request
+static GLOBAL_TOKEN: std::sync::Mutex<Option<String>> = std::sync::Mutex::new(None);
+
 fn http(port: u16, method: &str, path: &str, timeout_ms: u64) -> Option<(u16, String)> {
+    let tok = GLOBAL_TOKEN.lock().ok().and_then(|g| g.clone());
+    let path_owned;
+    let path = match tok {
+        Some(t) if !path.contains("accessToken=") && !path.contains("/auth/login") => {
+            path_owned = format!("{}{}accessToken={}", path, if path.contains('?') { "&" } else { "?" }, t);
+            path_owned.as_str()
+        }
+        _ => path,
+    };
     let addr = format!("127.0.0.1:{}", port);
     let mut s = TcpStream::connect_timeout(&addr.parse().ok()?, Duration::from_millis(800)).ok()?;
     s.set_read_timeout(Some(Duration::from_millis(timeout_ms))).ok()?;
@@ -186,6 +198,9 @@ pub fn run() {
             gclients.clear();
             tokens.clear();
             AUTH_TTL.store(0, std::sync::atomic::Ordering::SeqCst);
+            if let Ok(mut g) = GLOBAL_TOKEN.lock() {
+                *g = None;
+            }
             for n in nodes.iter_mut() {
                 n.signal(libc::SIGCONT);
                 n.kill();
@@ -212,8 +227,29 @@ pub fn run() {
                 for nd in nodes.iter_mut() {
                     let _ = std::fs::create_dir_all(&nd.dir);
                 }
+                // `auth=<ttl>`: the whole cluster runs with OpenAPI auth on; the harness logs in as the initial administrator
+                // once node 1 is up and carries that token in every request from then on
+                let auth: u64 = rest.iter().find_map(|w| w.strip_prefix("auth=")).and_then(|v| v.parse().ok()).unwrap_or(0);
+                AUTH_TTL.store(auth, std::sync::atomic::Ordering::SeqCst);
+                if let Ok(mut g) = GLOBAL_TOKEN.lock() {
+                    *g = None;
+                }
                 for i in 0..(n as usize) {
                     nodes[i].spawn(base, snap);
+                    if i == 0 && auth > 0 {
+                        let deadline = std::time::Instant::now() + Duration::from_secs(40);
+                        while std::time::Instant::now() < deadline {
+                            if let Some((200, b)) = http(nodes[0].http, "POST", "/nacos/v1/auth/login?username=admin&password=admin", 3000) {
+                                if let Some(t) = serde_json::from_str::<serde_json::Value>(&b).ok().and_then(|v| v["accessToken"].as_str().map(|x| x.to_string())) {
+                                    if let Ok(mut g) = GLOBAL_TOKEN.lock() {
+                                        *g = Some(t);
+                                    }
+                                    break;
+                                }
+                            }
+                            std::thread::sleep(Duration::from_millis(300));
+                        }
+                    }
                     // the first node has to be up (and leader) before the others ask to join
                     let deadline = std::time::Instant::now() + Duration::from_secs(if i == 0 { 25 } else { 12 });
                     let port = nodes[i].http;
